@@ -181,5 +181,11 @@ def run(P, R, tier):
     ok = bool(dflt) and any(isinstance(x, ast.Assign) and 'self.total_bounds' in norm(x.value) for x in dflt[0].body)
     R.check(ok, 'C08.e', hd, dflt[0].test if dflt else None, 'the array\'s own total_bounds is used only when none is given', 'explicit total_bounds is not honoured')
     last = [c for c in astq.own_calls(hd) if astq.is_call_to(P, hd, c, dfb)]
-    ok = bool(last) and [norm(a) for a in last[0].args] == ['self.bounds', 'total_bounds', 'p']
+    def _strip(e):
+        t_ = norm(e)
+        for w in ('tuple(', 'list('):
+            if t_.startswith(w) and t_.endswith(')'):
+                t_ = t_[len(w):-1]
+        return t_
+    ok = bool(last) and [_strip(a) for a in last[0].args] == ['self.bounds', 'total_bounds', 'p']
     R.check(ok, 'C08.e', hd, last[0] if last else None, 'distances are computed from (self.bounds, total_bounds, p)', 'distances are not computed from (self.bounds, total_bounds, p)')
